@@ -352,8 +352,14 @@ func newTeletextReader(r io.Reader) io.Reader {
 // Read implements the io.Reader interface
 func (r *teletextReader) Read(p []byte) (n int, err error) {
 	if n, err = io.ReadFull(r.r, p); err == io.ErrUnexpectedEOF {
-		// Remaining bytes have been read, EOF is for the next read
-		err = nil
+		if n > 0 {
+			// Remaining bytes have been read, EOF is for the next read
+			err = nil
+			return
+		}
+		// Without any byte this is the stream's own error: the demuxer takes a bare io.ErrUnexpectedEOF for the
+		// end of the stream, and mapping it to nil here would have it poll the stream for ever
+		err = fmt.Errorf("astisub: reading failed: %w", err)
 	}
 	return
 }
